@@ -37,13 +37,16 @@ def ob_step(a: int, b: int, c: int, hold: int) -> bool:
             assume(hold > 0)
     else:
         hold = None
-    w = S.in_state(state, cfgd, hold=hold, closing=P.get('closing', False))
+    w = S.in_state(state, cfgd, hold=hold, closing=P.get('closing', False), old_closed=P.get('old_closed', False))
     mark = w.mark()
     SC.inject(w, ev, a, b, c)
     obs = SC.observe(w, mark)
     oev, sub = SC.oracle_event(ev)
     cover('stepped')
-    return REF.check(state, oev, {'sub': sub, 'hold': hold}, obs)
+    ctx = {'sub': sub, 'hold': hold}
+    if ev == 'badlen' and cfgd.get('badlen', (4, 20))[0] == 4:
+        ctx['reports_ok'] = ('keepalive_received',)
+    return REF.check(state, oev, ctx, obs)
 
 
 # ---- bounded sequences from boot ---------------------------------------------------------------
@@ -84,6 +87,12 @@ def obligations(tier, seed):
                     out.append(ob('C01/step/%s/%s/addpath-any-family/sr=%d' % (S.STATE_NAMES[state], ev, sr), 'ob_step',
                                   {'state': state, 'ev': ev, 'cfg': {'extra_caps': 'addpath-sym', 'addpath_sr': sr}},
                                   covers=['stepped'], cap=200))
+            if ev == 'badlen':
+                for (t, ln) in SC.BADLEN[1:]:
+                    if quick and state != S.ESTABLISHED and (t, ln) not in ((2, 19), (3, 20)):
+                        continue
+                    out.append(ob('C01/step/%s/%s/type=%d/len=%d' % (S.STATE_NAMES[state], ev, t, ln), 'ob_step',
+                                  {'state': state, 'ev': ev, 'cfg': {'badlen': (t, ln)}}, covers=['stepped']))
             if ev == 'hdr_marker' and not quick:
                 for pos in (0, 7):
                     out.append(ob('C01/step/%s/%s/pos=%d' % (S.STATE_NAMES[state], ev, pos), 'ob_step',
@@ -94,6 +103,13 @@ def obligations(tier, seed):
                                   {'state': state, 'ev': ev, 'cfg': {'hdr_len_type': t}}, covers=['stepped']))
     out.append(ob('C01/step/IDLE/close_done', 'ob_step', {'state': S.IDLE, 'ev': 'close_done', 'closing': True},
                   covers=['stepped']))
+    # every state again with an earlier, finished connection in the history (the FSM keeps its protocol object)
+    for state, evs in SC.EVENTS_BY_STATE.items():
+        for ev in evs:
+            if quick and state not in (S.IDLE, S.CONNECT) and ev not in ('manual_stop', 'holdt', 'notif', 'peer_close', 'crt'):
+                continue
+            out.append(ob('C01/step-after-earlier-connection/%s/%s' % (S.STATE_NAMES[state], ev), 'ob_step',
+                          {'state': state, 'ev': ev, 'old_closed': True}, covers=['stepped'], cap=120))
     # sequences from boot: split by first event so the 16 workers share the tree
     core = ['tcp_ok', 'tcp_fail', 'open_ok', 'ka', 'upd', 'notif', 'hdr_type', 'peer_close', 'timer', 'close_done',
             'manual_stop', 'manual_start']
